@@ -695,8 +695,8 @@ func TestVerif_C27(t *testing.T) {
 	r.Assume("operation transactions are structurally well-formed (64/96-byte Extra, typed first output) but are not run through common.Validate: the durable checks of storage/badger_node.go are the code under observation")
 	r.Assume("the statement forbids transitions ('only'); operations the store refuses although the statement would allow them (removal while a pledge is pending) are counted, not flagged")
 
-	nh := r.N(36, 700)
-	workers := 4
+	nh := r.N(30, 500)
+	workers := 6
 	base := t.TempDir()
 	var mu sync.Mutex
 	total := map[string]int{}
